@@ -23,6 +23,10 @@ macro_rules! props {
 
 props! {
     "c01" c01 "C01",
+    "c02" c02 "C02",
+    "c03" c03 "C03",
+    "c04" c04 "C04",
+    "c09" c09 "C09",
 }
 
 /// Words of a slot-ordered list of deck indices (52 = blank), from the model layout.
@@ -37,4 +41,125 @@ pub fn words_of<const N: usize>(c: &[u8; N]) -> [u32; N] {
 
 pub fn bad_replay(rep: &mut Rep, what: &str) {
     rep.inconclusive.push(format!("replay input not usable: {}", what));
+}
+
+// ---------------------------------------------------------------------------
+// Size-dispatched access to the crate's containers Two..Seven.
+
+use ckc_rs::cards::five::Five;
+use ckc_rs::cards::four::Four;
+use ckc_rs::cards::seven::Seven;
+use ckc_rs::cards::six::Six;
+use ckc_rs::cards::three::Three;
+use ckc_rs::cards::two::Two;
+use ckc_rs::cards::{HandRanker, HandValidator};
+use ckc_rs::Shifty;
+
+macro_rules! by_len {
+    ($w:expr, $h:ident => $body:expr) => {
+        match $w.len() {
+            2 => { let $h = Two::from([$w[0], $w[1]]); $body }
+            3 => { let $h = Three::from([$w[0], $w[1], $w[2]]); $body }
+            4 => { let $h = Four::from([$w[0], $w[1], $w[2], $w[3]]); $body }
+            5 => { let $h = Five::from([$w[0], $w[1], $w[2], $w[3], $w[4]]); $body }
+            6 => { let $h = Six::from([$w[0], $w[1], $w[2], $w[3], $w[4], $w[5]]); $body }
+            7 => { let $h = Seven::from([$w[0], $w[1], $w[2], $w[3], $w[4], $w[5], $w[6]]); $body }
+            n => panic!("harness: no container of size {}", n),
+        }
+    };
+}
+
+pub fn crate_is_valid(w: &[u32]) -> bool {
+    by_len!(w, h => h.is_valid())
+}
+pub fn crate_is_corrupt(w: &[u32]) -> bool {
+    by_len!(w, h => h.is_corrupt())
+}
+pub fn crate_contain_blank(w: &[u32]) -> bool {
+    by_len!(w, h => h.contain_blank())
+}
+pub fn crate_are_unique(w: &[u32]) -> bool {
+    by_len!(w, h => h.are_unique())
+}
+pub fn crate_sort(w: &[u32]) -> Vec<u32> {
+    by_len!(w, h => h.sort().to_arr().to_vec())
+}
+/// (receiver after sort(), result of sort_in_place())
+pub fn crate_sort_both(w: &[u32]) -> (Vec<u32>, Vec<u32>, Vec<u32>) {
+    by_len!(w, h => {
+        let s = h.sort();
+        let after = h.to_arr().to_vec();
+        let mut m = h;
+        m.sort_in_place();
+        (s.to_arr().to_vec(), after, m.to_arr().to_vec())
+    })
+}
+pub fn crate_shift(w: &[u32]) -> Vec<u32> {
+    by_len!(w, h => h.shift_suit().to_arr().to_vec())
+}
+
+/// validated ranking of 5..=7 slots: (hand_rank_value_validated, hand_rank_validated().value)
+pub fn crate_validated(w: &[u32]) -> (u16, u16) {
+    match w.len() {
+        5 => { let h = Five::from([w[0], w[1], w[2], w[3], w[4]]); (h.hand_rank_value_validated(), h.hand_rank_validated().value) }
+        6 => { let h = Six::from([w[0], w[1], w[2], w[3], w[4], w[5]]); (h.hand_rank_value_validated(), h.hand_rank_validated().value) }
+        7 => { let h = Seven::from([w[0], w[1], w[2], w[3], w[4], w[5], w[6]]); (h.hand_rank_value_validated(), h.hand_rank_validated().value) }
+        n => panic!("harness: no ranking for size {}", n),
+    }
+}
+pub fn crate_validated_value(w: &[u32]) -> u16 {
+    match w.len() {
+        5 => Five::from([w[0], w[1], w[2], w[3], w[4]]).hand_rank_value_validated(),
+        6 => Six::from([w[0], w[1], w[2], w[3], w[4], w[5]]).hand_rank_value_validated(),
+        7 => Seven::from([w[0], w[1], w[2], w[3], w[4], w[5], w[6]]).hand_rank_value_validated(),
+        n => panic!("harness: no ranking for size {}", n),
+    }
+}
+/// unvalidated ranking of 5..=7 slots
+pub fn crate_value(w: &[u32]) -> u16 {
+    match w.len() {
+        5 => Five::from([w[0], w[1], w[2], w[3], w[4]]).hand_rank_value(),
+        6 => Six::from([w[0], w[1], w[2], w[3], w[4], w[5]]).hand_rank_value(),
+        7 => Seven::from([w[0], w[1], w[2], w[3], w[4], w[5], w[6]]).hand_rank_value(),
+        n => panic!("harness: no ranking for size {}", n),
+    }
+}
+
+/// O(1) model membership test: is `w` one of the 52 layout words? (decodes the
+/// rank nibble and the suit nibble, rebuilds the layout word and compares)
+#[inline]
+pub fn model_card_index(w: u32) -> Option<u8> {
+    let r = (w >> 8) & 0xF;
+    let s = (w >> 12) & 0xF;
+    if r > 12 {
+        return None;
+    }
+    let suit = match s {
+        8 => 0u8,
+        4 => 1,
+        2 => 2,
+        1 => 3,
+        _ => return None,
+    };
+    let i = crate::model::idx(r as u8, suit);
+    if crate::model::word(i) == w {
+        Some(i)
+    } else {
+        None
+    }
+}
+
+#[inline]
+pub fn model_valid(w: &[u32]) -> bool {
+    for (k, &x) in w.iter().enumerate() {
+        if model_card_index(x).is_none() {
+            return false;
+        }
+        for &y in &w[..k] {
+            if x == y {
+                return false;
+            }
+        }
+    }
+    true
 }
